@@ -1938,7 +1938,9 @@ theorem createAt_ok {fs1 : FS} {f : String} {hh : H5File} {p : Path} {x : String
   · rename_i h1 P hm
     split at h
     · simp at h
-    · exact ⟨h1, P, hm, (Prod.mk.inj h).1.symm⟩
+    · split at h
+      · simp at h
+      · exact ⟨h1, P, hm, (Prod.mk.inj h).1.symm⟩
 
 /-- **create_append_frame** (group path other than `/`, mode "a" or "r+"): every object of every
 file that does not lie under the canonical target location `D` is unchanged; objects of other
@@ -2114,7 +2116,9 @@ theorem createCooler_wf {fs : FS} (hw : WF fs) {f : String} {p : Path} {mode : M
         · rw [← (Prod.mk.inj hc).1]; exact hw1
         · split at hc
           · rw [← (Prod.mk.inj hc).1]; exact hw1
-          · exact absurd (Prod.mk.inj hc).2.symm hoc
+          · split at hc
+            · rw [← (Prod.mk.inj hc).1]; exact hw1
+            · exact absurd (Prod.mk.inj hc).2.symm hoc
 
 /-- **create_append_frame at the root** (mode "a" or "r+"): `create("file")` rewrites the root's
 four data groups and updates its attributes; every other object of the file — every other
@@ -3483,8 +3487,10 @@ theorem createCooler_lf {fs : FS} (hl : LinkFreeFS fs) {f : String} {p : Path} {
       · rename_i h1 P hmk
         split at hc
         · rw [← (Prod.mk.inj hc).1]; exact hl1
-        · rw [← (Prod.mk.inj hc).1]
-          exact lf_setFile hl1 (lf_putRegion (mkdirP_lf fs1 f _ hh [] h1 P hlh hmk) _ (regionLF_coolerRegion _ _) _)
+        · split at hc
+          · rw [← (Prod.mk.inj hc).1]; exact hl1
+          · rw [← (Prod.mk.inj hc).1]
+            exact lf_setFile hl1 (lf_putRegion (mkdirP_lf fs1 f _ hh [] h1 P hlh hmk) _ (regionLF_coolerRegion _ _) _)
 
 theorem setNote_lf {fs : FS} (hl : LinkFreeFS fs) {f value : String} {fs' : FS} {oc : Outcome}
     (h : setNote fs f value = (fs', oc)) : LinkFreeFS fs' := by
@@ -4238,5 +4244,24 @@ example : noExtB fsSoft = true ∧ stableB fsSoft = true ∧
 example (p : Path) : p ∈ [["a", "b"], ["c"], ["d"], ["e", "b"]] ↔ isCooler fsSoft "A" p = true :=
   listing_exact_soft (run_wf Variant.spec _ [] wf_nil) (noExt_of_b (by decide)) (stable_of_b (by decide))
     (by decide) p
+
+/-! ### creating at a name that is an untraversable link -/
+
+/-- `create` at a group path whose own name is a link that cannot be traversed (a cycle of links) is
+refused with RuntimeError and leaves the opened file system exactly as it was — trivially the frame
+property: nothing is touched.  (h5py's `create_group` reports "too many links" there instead of the
+ValueError that makes `create` delete the name; a link that merely dangles IS replaced.) -/
+theorem create_at_untraversable_refused {fs1 : FS} {f : String} {hh : H5File} {p : Path} {x : String} {c : Nat}
+    {h1 : H5File} {P : Path} (hm : mkdirP fs1 f hh [] p.dropLast = .ok (h1, P))
+    (hu : untraversableAt fs1 f h1 (P ++ [x]) = true) : createAt fs1 f hh p x c = (fs1, .err .runtime) := by
+  unfold createAt
+  simp [hm, hu]
+
+example :
+    let fs := run Variant.current [] [.create "B" ["c"] .a 3, .ln "B" ["a", "b"] "B" ["a"] true false]
+    createCooler fs "B" ["a"] .a 31 = (fs, .err .runtime) ∧
+    -- a dangling link is replaced
+    (createCooler (run Variant.current [] [.ln "B" ["zz"] "B" ["a"] true false]) "B" ["a"] .a 31).2 = .ok := by
+  decide
 
 end Cooler.C15
